@@ -157,7 +157,7 @@ def check(case, obs):
         path = os.path.join(workdir(), 'c20f.fcs')
         fcsgen.write(path, spec)
         f1 = FlowCal.io.FCSFile(path)
-        f2 = FlowCal.io.FCSFile(path)
+        f2 = FlowCal.io.FCSFile(path[:1] + path[1:])           # the same name, typed again (an equal but distinct string)
         obs.claim('file_eq', (f1 == f2) is True and (f1 != f2) is False and hash(f1) == hash(f2),
                   'two loads of the same file compare unequal or hash differently')
         obs.claim('file_eq', (f1 == 'x') is False and (f1 != 'x') is True, 'comparison with another type')
@@ -179,6 +179,10 @@ def check(case, obs):
         obs.nontrivial = True
         obs.claim('file_ne', (f1 == f3) is False and (f1 != f3) is True,
                   lambda: 'loads of files differing in %s compare equal' % ch)
+        # what two loads hold does not change when the file goes away afterwards
+        os.remove(path)
+        obs.claim('file_eq', (f1 == f2) is True and (f1 != f2) is False, 'two loads of the same file compare unequal once the file was removed')
+        obs.claim('file_ne', (f1 == f3) is False, 'loads of different files compare equal once the file was removed')
         return
 
     d = build(case['spec'])
